@@ -10,12 +10,16 @@
 
 #include <dsplib/gccphat.h>
 
+#include <mutex>
+
 namespace vf {
 namespace {
 
 // ops with thr = -1:  shplan kind n m            shared plan object created before the threads start
 // per-thread ops:     fft n ds | rfft n ds | ifft n ds | irfft n ds | xcorr n1 n2 ds | fftfilt hlen n ds | welch n win ds
 //                     resample n p q ds | kaiser n beta | proc pseed n | seed s | draw kind n | primes n | factor n | shared k ds
+//                     pub slot kind n m    create a plan in THIS thread (from this thread's caches) and publish it through a mutex-protected slot
+//                     useslot slot ds      take whatever plan is in the slot (possibly created by another, possibly already exited thread) and solve
 enum { SK_FFT = 0, SK_FFTR, SK_IFFT, SK_IFFTR, SK_CZT, SK_N };
 
 struct Shared {
@@ -112,7 +116,7 @@ bool op_valid(const Op& op, size_t nshared) {
         return op.a.size() >= 1 && std::fabs(op.arg(0)) < 2147483647.0;
     }
     if (k == "draw") {
-        return op.a.size() >= 2 && op.iarg(0) >= 0 && op.iarg(0) <= 3 && sz(1, 2000);
+        return op.a.size() >= 2 && op.iarg(0) >= 0 && op.iarg(0) <= 6 && sz(1, 2000);
     }
     if (k == "primes") {
         return op.a.size() >= 1 && op.iarg(0) >= 2 && op.iarg(0) <= 200000;
@@ -122,6 +126,18 @@ bool op_valid(const Op& op, size_t nshared) {
     }
     if (k == "shared") {
         return op.a.size() >= 2 && op.iarg(0) >= 0 && size_t(op.iarg(0)) < nshared;
+    }
+    if (k == "pub") {
+        if (op.a.size() < 4 || op.iarg(0) < 0 || op.iarg(0) > 3 || op.iarg(1) < 0 || op.iarg(1) >= SK_N || !sz(2, 4096)) {
+            return false;
+        }
+        if (op.iarg(1) == SK_IFFTR && op.iarg(2) % 2) {
+            return false;
+        }
+        return op.iarg(1) != SK_CZT || (sz(3, 1024) && op.iarg(2) <= 1024);
+    }
+    if (k == "useslot") {
+        return op.a.size() >= 2 && op.iarg(0) >= 0 && op.iarg(0) <= 3;
     }
     if (k == "stft") {
         return op.a.size() >= 3 && sz(0, 6000) && op.iarg(1) >= 2 && op.iarg(1) <= 10;
@@ -203,8 +219,24 @@ std::vector<double> do_op(const Op& op, const std::vector<Shared>& sh) {
             }
             break;
         }
-        default:
+        case 3:
             append(out, dsplib::awgn(rdata(77, m + 1), 10.0));
+            break;
+        case 4:   // scalar overloads, one call per value
+            for (int i = 0; i < m; ++i) {
+                out.push_back(dsplib::randn());
+            }
+            break;
+        case 5:
+            for (int i = 0; i < m; ++i) {
+                out.push_back(dsplib::rand());
+            }
+            break;
+        default:
+            for (int i = 0; i < m; ++i) {
+                out.push_back(dsplib::randi({-7, 7}));
+                out.push_back(dsplib::randi(100));
+            }
             break;
         }
     } else if (k == "primes") {
@@ -371,10 +403,22 @@ Plan gen_common(uint64_t seed, const std::string& tier, bool first_use) {
                 op.a = {double(r.range(0, 1000))};
             } else if (c <= 18) {
                 op.kind = "draw";
-                op.a = {double(r.below(4)), double(r.logi(1, 200))};
+                op.a = {double(r.below(7)), double(r.chance(0.5) ? r.range(1, 9) : r.logi(1, 200))};
             } else if (c == 19) {
                 op.kind = "primes";
                 op.a = {double(r.logi(2, 20000))};
+            } else if (c == 20 && r.chance(0.5)) {
+                op.kind = "pub";
+                int kind = int(r.below(SK_N));
+                int n = pick_len(r);
+                n += (kind == SK_IFFTR) ? n % 2 : 0;
+                if (kind == SK_CZT) {
+                    n = std::min(n, 400);
+                }
+                op.a = {double(r.below(3)), double(kind), double(n), double(kind == SK_CZT ? r.range(1, 400) : 0)};
+            } else if (c == 29) {
+                op.kind = "useslot";
+                op.a = {double(r.below(3)), ds};
             } else if (c == 21) {
                 op.kind = "stft";
                 op.a = {double(r.logi(64, 3000)), double(r.range(3, 8)), ds};
@@ -408,6 +452,42 @@ Plan gen_common(uint64_t seed, const std::string& tier, bool first_use) {
     }
     return pl;
 }
+
+std::vector<double> solve_shared(const Shared& s, uint32_t ds) {
+    std::vector<double> out;
+    switch (s.kind) {
+    case SK_FFT:
+        append(out, s.fft->solve(cdata(ds, s.n)));
+        break;
+    case SK_FFTR:
+        append(out, s.fftr->solve(rdata(ds, s.n)));
+        break;
+    case SK_IFFT:
+        append(out, s.ifft->solve(cdata(ds, s.n)));
+        break;
+    case SK_IFFTR:
+        append(out, s.ifftr->solve(cdata(ds, s.n)));
+        break;
+    default:
+        append(out, s.czt->solve(cdata(ds, s.n)));
+        break;
+    }
+    return out;
+}
+
+// plans handed from thread to thread at run time: a real mutex gives the hand-over a happens-before edge
+struct Slots {
+    std::mutex mtx;
+    Shared slot[4];
+    bool full[4]{false, false, false, false};
+};
+
+struct SlotUse {
+    int thr;
+    size_t op;
+    Shared plan;   // copy of the plan object that was used (keeps it alive)
+    uint32_t ds;
+};
 
 Plan gen(uint64_t seed, const std::string& tier) {
     return gen_common(seed, tier, false);
@@ -470,10 +550,50 @@ Result exec(const Plan& pl) {
             ++restarts;
         }
     }
+    Slots slots;
+    std::vector<std::vector<SlotUse>> uses(static_cast<size_t>(nthr));
     st.run([&](int me) {
         for (size_t i = 0; i < prog[size_t(me)].size(); ++i) {
-            set_cur_opf("C09 thread %d op %zu %s", me, i, prog[size_t(me)][i].kind.c_str());
-            got[size_t(me)].push_back(guarded(prog[size_t(me)][i], shared));
+            const Op& op = prog[size_t(me)][i];
+            set_cur_opf("C09 thread %d op %zu %s", me, i, op.kind.c_str());
+            if (op.kind == "pub") {
+                Shared s;
+                s.kind = int(op.iarg(1));
+                s.n = int(op.iarg(2));
+                s.m = int(op.iarg(3));
+                try {
+                    make_shared_plan(s);   // built from THIS thread's plan caches
+                    std::lock_guard<std::mutex> lk(slots.mtx);
+                    slots.slot[op.iarg(0)] = s;
+                    slots.full[op.iarg(0)] = true;
+                } catch (const std::exception&) {
+                }
+                got[size_t(me)].push_back({});
+            } else if (op.kind == "useslot") {
+                Shared s;
+                bool have = false;
+                {
+                    std::lock_guard<std::mutex> lk(slots.mtx);
+                    if (slots.full[op.iarg(0)]) {
+                        s = slots.slot[op.iarg(0)];
+                        have = true;
+                    }
+                }
+                if (have) {
+                    std::vector<double> r;
+                    try {
+                        r = solve_shared(s, uint32_t(op.iarg(1)));
+                    } catch (const std::exception& e) {
+                        r = {-7777.0, double(strlen(e.what()))};
+                    }
+                    got[size_t(me)].push_back(r);
+                    uses[size_t(me)].push_back(SlotUse{me, i, s, uint32_t(op.iarg(1))});
+                } else {
+                    got[size_t(me)].push_back({});
+                }
+            } else {
+                got[size_t(me)].push_back(guarded(op, shared));
+            }
             sim::op_boundary();
         }
     });
@@ -490,11 +610,18 @@ Result exec(const Plan& pl) {
         std::vector<std::vector<double>> ref;
         run_isolated([&] {
             for (const auto& op : prog[size_t(t)]) {
-                ref.push_back(guarded(op, shared));
+                if (op.kind == "pub" || op.kind == "useslot") {
+                    ref.push_back({});   // what a slot holds depends on the schedule: checked separately below
+                } else {
+                    ref.push_back(guarded(op, shared));
+                }
             }
         });
         for (size_t i = 0; i < ref.size(); ++i) {
             const Op& op = prog[size_t(t)][i];
+            if (op.kind == "pub" || op.kind == "useslot") {
+                continue;
+            }
             const bool exact = (op.kind == "draw" || op.kind == "seed" || op.kind == "primes" || op.kind == "factor");
             const Cmp c = compare_stream(got[size_t(t)][i], ref[i], exact ? 0.0 : 1e-9);
             if (op.kind == "shared") {
@@ -515,6 +642,33 @@ Result exec(const Plan& pl) {
             }
         }
     }
+    // plans handed over at run time: whoever created the plan, the result must be that of a fresh plan of the same kind and size
+    int64_t slot_uses = 0;
+    for (int t = 0; t < nthr && res.ok; ++t) {
+        for (const auto& u : uses[size_t(t)]) {
+            std::vector<double> ref;
+            run_isolated([&] {
+                Shared f;
+                f.kind = u.plan.kind;
+                f.n = u.plan.n;
+                f.m = u.plan.m;
+                try {
+                    make_shared_plan(f);
+                    ref = solve_shared(f, u.ds);
+                } catch (const std::exception& e) {
+                    ref = {-7777.0, double(strlen(e.what()))};
+                }
+            });
+            ++slot_uses;
+            const Cmp c = compare_stream(got[size_t(t)][u.op], ref, 1e-9);
+            if (!c.ok) {
+                res.fail("C09:result-differs:handed-over-plan", fmt("thread %d op %zu: solve through a plan (kind %d, n=%d) handed over from another thread differs from a fresh plan at element %zu: %s",
+                                                                  t, u.op, u.plan.kind, u.plan.n, c.at, c.what.c_str()));
+                break;
+            }
+        }
+    }
+    res.inc("probe.plan_handed_over_between_running_threads", slot_uses);
     int contended = 0;
     for (const auto& kv : users) {
         contended += (kv.second.size() >= 2);
